@@ -7,23 +7,26 @@ from . import poolenv, c15_buffers
 from .poolenv import CHUNK, ITEM
 
 
-def chunking_contract(M, qual):
-    """nested generator chunking(d): consecutive non-empty chunks of size chunk_size (last one possibly shorter) covering d"""
-    m = M.function(qual, {"d": CHUNK, "chunk_size": INT}, yields=CHUNK, locals={"ch": CHUNK})
-    m.requires("chunk_size >= 1")
+def chunking_contract(M, qual, cs="chunk_size", free=None):
+    """nested generator chunking(d): consecutive non-empty chunks of size `cs` (last one possibly shorter) covering d.
+    free: the free (closure) variables of the nested function with their sorts"""
+    params = {"d": CHUNK}
+    params.update(free or {"chunk_size": INT})
+    m = M.function(qual, params, yields=CHUNK, locals={"ch": CHUNK})
+    m.requires("%s >= 1" % cs)
     m.witness("coff", ArrS(INT, INT), bound_to="g_off")
     m.ghost_entry("g_off = lam(i, 0)")
     lp = m.loop(1)
     k = "len(yielded)"
-    lp.invariant("len(ch) < chunk_size and g_off[%s] + len(ch) == _i1 and g_off[0] == 0" % k)
+    lp.invariant("len(ch) < %s and g_off[%s] + len(ch) == _i1 and g_off[0] == 0" % (cs, k))
     lp.invariant("forall(t, 0, len(ch), ch[t] == d[g_off[%s] + t], trigger=ch[t])" % k)
-    lp.invariant("forall(j, 0, %s, len(yielded[j]) == chunk_size and g_off[j + 1] == g_off[j] + chunk_size"
-                 " and forall(t, 0, chunk_size, yielded[j][t] == d[g_off[j] + t]), trigger=yielded[j])" % k)
+    lp.invariant("forall(j, 0, %s, len(yielded[j]) == %s and g_off[j + 1] == g_off[j] + %s"
+                 " and forall(t, 0, %s, yielded[j][t] == d[g_off[j] + t]), trigger=yielded[j])" % (k, cs, cs, cs))
     lp.ghost_at_end("g_off = aset(g_off, len(yielded), _i1 - len(ch))")
     m.ghost_exit("g_off = aset(g_off, len(yielded), len(d))")
     m.ensures("coff[0] == 0 and coff[len(yielded)] == len(d)", "chunks-cover-the-input-exactly")
-    m.ensures("forall(j, 0, len(yielded), 1 <= len(yielded[j]) and len(yielded[j]) <= chunk_size and coff[j + 1] == coff[j] + len(yielded[j])"
-              " and forall(t, 0, len(yielded[j]), yielded[j][t] == d[coff[j] + t]), trigger=yielded[j])", "consecutive-non-empty-chunks")
+    m.ensures("forall(j, 0, len(yielded), 1 <= len(yielded[j]) and len(yielded[j]) <= %s and coff[j + 1] == coff[j] + len(yielded[j])"
+              " and forall(t, 0, len(yielded[j]), yielded[j][t] == d[coff[j] + t]), trigger=yielded[j])" % cs, "consecutive-non-empty-chunks")
     return m
 
 
